@@ -27,7 +27,7 @@ const (
 // Profile steers the command mix and the narrow exclusions (known-finding classes).
 type Profile struct {
 	Weights map[string]int
-	// NoSGDurChangeWithLiveGroups leaves the shard-group duration out of an ALTER RETENTION POLICY whose target holds a live
+	// NoSGDurChangeWithLiveGroups leaves the shard-group duration out of an ALTER RETENTION POLICY whose target holds a
 	// shard group (known class C16-overlap-after-shard-duration-change); counted in Excluded.
 	NoSGDurChangeWithLiveGroups bool
 	// NoMixedShardType does not re-create a measurement with another sharding type while its mark-deleted predecessor is the
@@ -617,7 +617,8 @@ func (g *Gen) gen(t *rapid.T, kind string) {
 		op := Op{K: kind, DB: db, RP: rp, B: ui(t, 0, 5, "default") == 0,
 			Dur: optDur(t, rpDurs, 35, "dur"), SGDur: optDur(t, sgDurs, 50, "sgdur"), Hot: optDur(t, tierDurs, 15, "hot"), Warm: optDur(t, tierDurs, 15, "warm"),
 			IGDur: optDur(t, igDurs, 25, "igdur"), ICold: optDur(t, tierDurs, 10, "icold")}
-		if g.Prof.NoSGDurChangeWithLiveGroups && op.SGDur != nil && ref != nil && liveGroups(ref.info) > 0 {
+		// (a group that is marked deleted counts too: "recall data" can revive it)
+		if g.Prof.NoSGDurChangeWithLiveGroups && op.SGDur != nil && ref != nil && len(ref.info.ShardGroups) > 0 {
 			nd := time.Duration(*op.SGDur)
 			if nd < time.Hour {
 				nd = time.Hour // normalisedShardDuration
